@@ -31,6 +31,9 @@ std::string handle(const std::string& op, const Args& a) {
         auto x = mk<float>(a, "a"); auto y = mk<float>(a, "b");
         if (proto::has(a, "form")) return fmt_result(na::pairwise_distance(x, y));
         int ord = (int)proto::integer(a, "ord"); float eps = (float)std::stod(proto::get(a, "eps"));
+        if (proto::has(a, "api") && proto::get(a, "api") == "view")
+            return proto::integer(a, "keepdims") ? fmt_result(na::eval(nmtools::view::pairwise_distance(x, y, ord, eps, nm::True)))
+                                                 : fmt_result(na::eval(nmtools::view::pairwise_distance(x, y, ord, eps, nm::False)));
         if (proto::integer(a, "keepdims")) return fmt_result(na::pairwise_distance(x, y, ord, eps, nm::True));
         return fmt_result(na::pairwise_distance(x, y, ord, eps, nm::False));
     }
@@ -38,6 +41,11 @@ std::string handle(const std::string& op, const Args& a) {
         auto x = mk<float>(a, "a"); auto y = mk<float>(a, "b");
         if (proto::has(a, "form")) return fmt_result(na::cosine_similarity(x, y));
         int axis = (int)proto::integer(a, "axis");
+        if (proto::has(a, "eps")) {     // explicit eps, lazily (api=view: the view evaluated here) or eagerly (api=array)
+            float eps = (float)std::stod(proto::get(a, "eps"));
+            if (proto::has(a, "api") && proto::get(a, "api") == "view") return fmt_result(na::eval(nmtools::view::cosine_similarity(x, y, axis, eps)));
+            return fmt_result(na::cosine_similarity(x, y, axis, eps));
+        }
         return fmt_result(na::cosine_similarity(x, y, axis));
     }
     return "unknown-op";
